@@ -177,6 +177,9 @@ func switchTo(next *task, wait bool) {
 
 // yieldPoint: the running task stays runnable; somebody (maybe itself) goes on.
 func yieldPoint() {
+	if len(timerq) > 0 {
+		fireDue()
+	}
 	if len(tasks) == 1 {
 		return
 	}
@@ -186,7 +189,11 @@ func yieldPoint() {
 // block: the running task cannot go on until somebody makes it runnable.
 func block() {
 	cur.state = stBlocked
-	rs := runnable(false)
+	fireDue()
+	rs := runnable(true)
+	for len(rs) == 0 && jumpToNextTimer() {
+		rs = runnable(true)
+	}
 	if len(rs) == 0 {
 		if selectRendezvousWaiters > 0 {
 			trouble("all tasks blocked while a select waits on an unbuffered channel: a rendezvous between two selects is not modelled")
@@ -213,19 +220,26 @@ func spawn(fn func()) {
 	go func() {
 		<-t.wake
 		fn()
-		// task end
-		t.state = stDone
-		rs := runnable(false)
-		if len(rs) == 0 {
-			if selectRendezvousWaiters > 0 {
-				trouble("all tasks blocked while a select waits on an unbuffered channel: a rendezvous between two selects is not modelled")
-			}
-			journal.Note = "all tasks blocked (after task end)"
-			finish("deadlock", ExitDeadlock)
-		}
-		switchTo(choose(rs), false)
+		taskEnd(t)
 	}()
 	yieldPoint()
+}
+
+func taskEnd(t *task) {
+	t.state = stDone
+	fireDue()
+	rs := runnable(false)
+	for len(rs) == 0 && jumpToNextTimer() {
+		rs = runnable(false)
+	}
+	if len(rs) == 0 {
+		if selectRendezvousWaiters > 0 {
+			trouble("all tasks blocked while a select waits on an unbuffered channel: a rendezvous between two selects is not modelled")
+		}
+		journal.Note = "all tasks blocked (after task end)"
+		finish("deadlock", ExitDeadlock)
+	}
+	switchTo(choose(rs), false)
 }
 
 // Go0..Go3 replace `go f(args...)`; function value and arguments are
@@ -241,6 +255,7 @@ func Go2R[A, B, R any](f func(A, B) R, a A, b B)      { spawn(func() { f(a, b) }
 // yieldOthers: the running task stays runnable but lets another runnable
 // task (if any) go first, whatever the policy says about staying.
 func yieldOthers() {
+	fireDue()
 	rs := runnable(false)
 	if len(rs) == 0 {
 		return
@@ -719,17 +734,10 @@ func (o *Once) Do(f func()) {
 var simClockBase = time.Unix(1_700_000_000, 0).UTC()
 
 func Now() time.Time {
-	return simClockBase.Add(time.Duration(step.Seed%86_400_000)*time.Millisecond + time.Duration(ticks)*time.Microsecond)
+	return simClockBase.Add(time.Duration(step.Seed%86_400_000)*time.Millisecond + simClock())
 }
 
 func Since(t time.Time) time.Duration { return Now().Sub(t) }
-
-func Sleep(d time.Duration) {
-	if d > 0 {
-		ticks += int64(d / time.Microsecond)
-	}
-	yieldOthers()
-}
 
 func NumCPU() int {
 	if step.CPUs > 0 {
